@@ -562,6 +562,16 @@ class CFG:
                         same = [d for d in defs if d.ast.value.value is f.pol]
                         if len(same) == 1:
                             out.extend(self.facts_at(same[0], _depth + 1))
+                    elif len(defs) == 1 and isinstance(defs[0].ast, ast.Assign) and len(defs[0].ast.targets) == 1 and \
+                            isinstance(defs[0].ast.value, (ast.Compare, ast.BoolOp)) or \
+                            (len(defs) == 1 and isinstance(defs[0].ast, ast.Assign) and isinstance(defs[0].ast.value, ast.UnaryOp) and isinstance(defs[0].ast.value.op, ast.Not)):
+                        # an explaining boolean `ok = a == b and c`: the test of `ok` carries the facts of its definition, provided the
+                        # operands still have the values they had there
+                        v = defs[0].ast.value
+                        names = {x.id for x in ast.walk(v) if isinstance(x, ast.Name)}
+                        if not any(isinstance(x, ast.Call) for x in ast.walk(v) if not (isinstance(x, ast.Call) and isinstance(x.func, ast.Name) and x.func.id in ('len', 'isinstance', 'tuple', 'int'))) and \
+                                all({d.id for d in self.reaching_defs(defs[0], nm)} == {d.id for d in self.reaching_defs(src, nm)} for nm in names):
+                            out.extend(implied(v, f.pol))
         return out
 
     def fact_keys_at(self, n):
